@@ -6,6 +6,7 @@ verus! {
 //@INCLUDE opcodes.rs
 //@INCLUDE prelude_compiler.rs
 //@INCLUDE compiler_convert_assumed.rs
+//@INCLUDE genpost_lemmas.rs
 
 /// the log grew by exactly these expressions, in this order, each compiled right after the previous one
 pub open spec fn logged_in_order(pre: Compiler, post: Compiler, es: Seq<Expr>, extra: int) -> bool {
@@ -33,10 +34,25 @@ impl Compiler {
                 &&& (!is_builtin ==> final(self).log@[old(self).log@.len() + n].what == LogWhat::E(**left)
                         && code.len() >= 2 && code[code.len() - 2] == opcode_byte(OpCode::Call) && code[code.len() - 1] == n)
             }),
-            is_prefix(old(self).instructions@, final(self).instructions@),
+            r is Ok ==> is_prefix(old(self).instructions@, final(self).instructions@),
+            r is Ok ==> gen_post(*old(self), *final(self), true),
     {
-//@LOOP 1 invariant gen_inv(*self), is_prefix(old(self).instructions@, self.instructions@), self.log@.len() == old(self).log@.len() + __it.index@, forall|j: int| 0 <= j < __it.index@ ==> #[trigger] self.log@[old(self).log@.len() + j].what == LogWhat::E(arguments@[j]),
+//@LOOP 1 invariant gen_inv(*self), gen_inv(*old(self)), gen_post(*old(self), *self, false), sym_depth(self.symbols) == sym_depth(old(self).symbols), sym_contexts(self.symbols) == sym_contexts(old(self).symbols), sym_outer(self.symbols) == sym_outer(old(self).symbols), is_prefix(old(self).instructions@, self.instructions@), self.log@.len() == old(self).log@.len() + __it.index@, forall|j: int| 0 <= j < __it.index@ ==> #[trigger] self.log@[old(self).log@.len() + j].what == LogWhat::E(arguments@[j]),
+//@PRELOOP 1 proof { lemma_gen_post_refl(*old(self)); }
+//@GHOST before="self.compile_expression(a)?;" let ghost s_it = *self;
+//@GHOST after="self.compile_expression(a)?;" proof { lemma_gen_post_trans(*old(self), s_it, *self, false, true); }
+//@GHOST before="if let Expr::Identifier(name) = &**left {" let ghost s_loop = *self;
+//@GHOST after="self.emit_u8(to_u8(arguments.len())?);" proof { let n0 = s_loop.instructions@.len() as int; assert(self.instructions@ =~= s_loop.instructions@ + self.instructions@.subrange(n0, n0 + 3)); lemma_gen_post_append(s_loop, *self, self.instructions@.subrange(n0, n0 + 3)); lemma_gen_post_trans(*old(self), s_loop, *self, false, true); lemma_gen_post_upgrade(*old(self), *self); }
+//@GHOST after="self.compile_expression(left)?;" let ghost s_left = *self;
 //@ARM file=compiler.rs fn=compile_expression impl=Compiler arm="Expr::Call" rules="R1;R4;R14[compile_call];R8[for a in arguments {=>for a in __it: arguments {];R3[builtin as u8=>builtin.byte]"
+        proof {
+            let n1 = s_left.instructions@.len() as int;
+            assert(self.instructions@ =~= s_left.instructions@ + self.instructions@.subrange(n1, n1 + 2));
+            lemma_gen_post_append(s_left, *self, self.instructions@.subrange(n1, n1 + 2));
+            lemma_gen_post_trans(*old(self), s_loop, s_left, false, true);
+            lemma_gen_post_trans(*old(self), s_left, *self, false, true);
+            lemma_gen_post_upgrade(*old(self), *self);
+        }
         Ok(())
     }
 
@@ -52,10 +68,22 @@ impl Compiler {
                 &&& logged_in_order(*old(self), *final(self), values@, 0)
                 &&& code.len() >= 3 && code[code.len() - 3] == opcode_byte(OpCode::Array) && u16_at(code, code.len() - 2) == n
             }),
-            is_prefix(old(self).instructions@, final(self).instructions@),
+            r is Ok ==> is_prefix(old(self).instructions@, final(self).instructions@),
+            r is Ok ==> gen_post(*old(self), *final(self), true),
     {
-//@LOOP 1 invariant gen_inv(*self), is_prefix(old(self).instructions@, self.instructions@), self.log@.len() == old(self).log@.len() + __it.index@, forall|j: int| 0 <= j < __it.index@ ==> #[trigger] self.log@[old(self).log@.len() + j].what == LogWhat::E(values@[j]),
+//@LOOP 1 invariant gen_inv(*self), gen_inv(*old(self)), gen_post(*old(self), *self, false), sym_depth(self.symbols) == sym_depth(old(self).symbols), sym_contexts(self.symbols) == sym_contexts(old(self).symbols), sym_outer(self.symbols) == sym_outer(old(self).symbols), is_prefix(old(self).instructions@, self.instructions@), self.log@.len() == old(self).log@.len() + __it.index@, forall|j: int| 0 <= j < __it.index@ ==> #[trigger] self.log@[old(self).log@.len() + j].what == LogWhat::E(values@[j]),
+//@PRELOOP 1 proof { lemma_gen_post_refl(*old(self)); }
+//@GHOST before="self.compile_expression(v)?;" let ghost s_it = *self;
+//@GHOST after="self.compile_expression(v)?;" proof { lemma_gen_post_trans(*old(self), s_it, *self, false, true); }
+//@GHOST before="self.emit_opcode(OpCode::Array);" let ghost s_loop = *self;
 //@ARM file=compiler.rs fn=compile_expression impl=Compiler arm="Expr::Array" rules="R1;R4;R8[for v in values {=>for v in __it: values {]"
+        proof {
+            let n1 = s_loop.instructions@.len() as int;
+            assert(self.instructions@ =~= s_loop.instructions@ + self.instructions@.subrange(n1, n1 + 3));
+            lemma_gen_post_append(s_loop, *self, self.instructions@.subrange(n1, n1 + 3));
+            lemma_gen_post_trans(*old(self), s_loop, *self, false, true);
+            lemma_gen_post_upgrade(*old(self), *self);
+        }
         Ok(())
     }
 
@@ -65,9 +93,18 @@ impl Compiler {
         ensures
             //@VACUITY
             r is Ok ==> (logged_in_order(*old(self), *final(self), seq![**left, **index], 0) && final(self).instructions@.last() == opcode_byte(OpCode::IndexGet)),
-            is_prefix(old(self).instructions@, final(self).instructions@),
+            r is Ok ==> is_prefix(old(self).instructions@, final(self).instructions@),
+            r is Ok ==> gen_post(*old(self), *final(self), true),   // the arm itself meets the generator contract it assumes of its callees
     {
+//@GHOST after="self.compile_expression(left)?;" let ghost s1 = *self;
+//@GHOST after="self.compile_expression(index)?;" let ghost s2 = *self;
 //@ARM file=compiler.rs fn=compile_expression impl=Compiler arm="Expr::Index" nth=2 rules="R1;R4"
+        proof {
+            lemma_gen_post_trans(*old(self), s1, s2, true, true);
+            assert(self.instructions@ =~= s2.instructions@ + seq![opcode_byte(OpCode::IndexGet)]);
+            lemma_gen_post_append(s2, *self, seq![opcode_byte(OpCode::IndexGet)]);
+            lemma_gen_post_trans(*old(self), s2, *self, true, true);
+        }
         Ok(())
     }
 
@@ -80,9 +117,16 @@ impl Compiler {
                 && ((*operator == Operator::Not && final(self).instructions@.last() == opcode_byte(OpCode::Not))
                     || ((*operator == Operator::Negate || *operator == Operator::Subtract) && final(self).instructions@.last() == opcode_byte(OpCode::Negate)))),
             (*operator != Operator::Not && *operator != Operator::Negate && *operator != Operator::Subtract) ==> r is Err,
-            is_prefix(old(self).instructions@, final(self).instructions@),
+            r is Ok ==> is_prefix(old(self).instructions@, final(self).instructions@),
+            r is Ok ==> gen_post(*old(self), *final(self), true),
     {
+//@GHOST after="self.compile_expression(right)?;" let ghost s1 = *self;
 //@ARM file=compiler.rs fn=compile_expression impl=Compiler arm="Expr::Prefix" rules="R1;R4"
+        proof {
+            assert(self.instructions@ =~= s1.instructions@ + seq![self.instructions@.last()]);
+            lemma_gen_post_append(s1, *self, seq![self.instructions@.last()]);
+            lemma_gen_post_trans(*old(self), s1, *self, true, true);
+        }
         Ok(())
     }
 
@@ -91,8 +135,15 @@ impl Compiler {
         ensures
             //@VACUITY
             r is Ok, final(self).instructions@ == old(self).instructions@.push(opcode_byte(if *value { OpCode::True } else { OpCode::False })),
+            gen_inv(*old(self)) ==> gen_post(*old(self), *final(self), true),
     {
 //@ARM file=compiler.rs fn=compile_expression impl=Compiler arm="Expr::Bool" rules="R1;R4"
+        proof {
+            if gen_inv(*old(self)) {
+                assert(self.instructions@ =~= old(self).instructions@ + seq![self.instructions@.last()]);
+                lemma_gen_post_append(*old(self), *self, seq![self.instructions@.last()]);
+            }
+        }
         Ok(())
     }
 
@@ -111,8 +162,16 @@ impl Compiler {
                 &&& spec_tag(final(self).constants@[ci]) == Type::Int && spec_int(final(self).constants@[ci]) == *value
             }),
             forall|i: int| 0 <= i < old(self).constants@.len() ==> final(self).constants@[i] == old(self).constants@[i],
+            (r is Ok && gen_inv(*old(self))) ==> gen_post(*old(self), *final(self), true),
     {
 //@ARM file=compiler.rs fn=compile_expression impl=Compiler arm="Expr::Int" rules="R1;R4"
+        proof {
+            if gen_inv(*old(self)) {
+                let n = old(self).instructions@.len() as int;
+                assert(self.instructions@ =~= old(self).instructions@ + self.instructions@.subrange(n, n + 3));
+                lemma_gen_post_append(*old(self), *self, self.instructions@.subrange(n, n + 3));
+            }
+        }
         Ok(())
     }
 
@@ -123,9 +182,16 @@ impl Compiler {
             //@VACUITY
             r is Ok ==> (logged_in_order(*old(self), *final(self), seq![*expr], 0) && final(self).instructions@.last() == opcode_byte(OpCode::Pop)
                 && final(self).last_instruction == Some(OpCode::Pop) && final(self).instructions@.len() == final(self).log@.last().end + 1),
-            is_prefix(old(self).instructions@, final(self).instructions@), gen_inv(*final(self)),
+            r is Ok ==> is_prefix(old(self).instructions@, final(self).instructions@), r is Ok ==> gen_inv(*final(self)),
+            r is Ok ==> gen_post(*old(self), *final(self), true),
     {
+//@GHOST after="self.compile_expression(expr)?;" let ghost s1 = *self;
 //@ARM file=compiler.rs fn=compile_statement impl=Compiler arm="Stmt::Expr" rules="R1;R4"
+        proof {
+            assert(self.instructions@ =~= s1.instructions@ + seq![opcode_byte(OpCode::Pop)]);
+            lemma_gen_post_append(s1, *self, seq![opcode_byte(OpCode::Pop)]);
+            lemma_gen_post_trans(*old(self), s1, *self, true, true);
+        }
         Ok(())
     }
 
@@ -138,11 +204,92 @@ impl Compiler {
             !sym_in_function(old(self).symbols) ==> (r matches Err(Error::SyntaxError(_)) && final(self).instructions@ == old(self).instructions@ && final(self).log@ == old(self).log@),
             r is Ok ==> (sym_in_function(old(self).symbols) && logged_in_order(*old(self), *final(self), seq![*expr], 0)
                 && final(self).instructions@.last() == opcode_byte(OpCode::ReturnValue)),
-            is_prefix(old(self).instructions@, final(self).instructions@),
+            r is Ok ==> is_prefix(old(self).instructions@, final(self).instructions@),
+            r is Ok ==> gen_post(*old(self), *final(self), true),
     {
+//@GHOST after="self.compile_expression(expr)?;" let ghost s1 = *self;
 //@ARM file=compiler.rs fn=compile_statement impl=Compiler arm="Stmt::Return" rules="R1;R4"
+        proof {
+            assert(self.instructions@ =~= s1.instructions@ + seq![opcode_byte(OpCode::ReturnValue)]);
+            lemma_gen_post_append(s1, *self, seq![opcode_byte(OpCode::ReturnValue)]);
+            lemma_gen_post_trans(*old(self), s1, *self, true, true);
+        }
         Ok(())
     }
+
+    /// Stmt::Block: exactly the block generator, nothing added
+    fn arm_stmt_block(&mut self, stmts: &Vec<Stmt>) -> (r: Result<(), Error>)
+        requires gen_inv(*old(self))
+        ensures
+            //@VACUITY
+            block_post(*old(self), *final(self), stmts@, r is Ok),
+            r is Ok ==> gen_post(*old(self), *final(self), true),
+    {
+//@ARM file=compiler.rs fn=compile_statement impl=Compiler arm="Stmt::Block" rules="R1;R4"
+        Ok(())
+    }
+
+    /// Expr::Float: `Const <slot>` where the slot holds a float the pool considers equal to the literal
+    fn arm_float(&mut self, value: &f64) -> (r: Result<(), Error>)
+        requires gen_inv(*old(self))
+        ensures
+            //@VACUITY
+            r is Ok ==> ({
+                let code = final(self).instructions@;
+                let n = old(self).instructions@.len() as int;
+                let ci = u16_at(code, n + 1);
+                &&& code.len() == n + 3 && code[n] == opcode_byte(OpCode::Const) && is_prefix(old(self).instructions@, code)
+                &&& 0 <= ci < final(self).constants@.len()
+                &&& spec_tag(final(self).constants@[ci]) == Type::Float
+                &&& exists|o: Object| spec_is_float_of(o, *value) && pool_equal(final(self).constants@[ci], o)
+            }),
+            r is Ok ==> gen_post(*old(self), *final(self), true),
+    {
+//@GHOST after="let obj = Object::float(*value, &mut self.gc);" let ghost s1 = *self;
+//@ARM file=compiler.rs fn=compile_expression impl=Compiler arm="Expr::Float" rules="R1;R4"
+        proof {
+            let n = old(self).instructions@.len() as int;
+            assert(self.instructions@ =~= old(self).instructions@ + self.instructions@.subrange(n, n + 3));
+            lemma_gen_post_append(*old(self), *self, self.instructions@.subrange(n, n + 3));
+        }
+        Ok(())
+    }
+
+    /// Expr::String: `Const <slot>` where the slot holds a string the pool considers equal to the literal
+    fn arm_string(&mut self, value: &String) -> (r: Result<(), Error>)
+        requires gen_inv(*old(self))
+        ensures
+            //@VACUITY
+            r is Ok ==> ({
+                let code = final(self).instructions@;
+                let n = old(self).instructions@.len() as int;
+                let ci = u16_at(code, n + 1);
+                &&& code.len() == n + 3 && code[n] == opcode_byte(OpCode::Const) && is_prefix(old(self).instructions@, code)
+                &&& 0 <= ci < final(self).constants@.len()
+                &&& spec_tag(final(self).constants@[ci]) == Type::String
+                &&& exists|o: Object| spec_is_string_of(o, value@) && pool_equal(final(self).constants@[ci], o)
+            }),
+            r is Ok ==> gen_post(*old(self), *final(self), true),
+    {
+//@ARM file=compiler.rs fn=compile_expression impl=Compiler arm="Expr::String" rules="R1;R4"
+        proof {
+            let n = old(self).instructions@.len() as int;
+            assert(self.instructions@ =~= old(self).instructions@ + self.instructions@.subrange(n, n + 3));
+            lemma_gen_post_append(*old(self), *self, self.instructions@.subrange(n, n + 3));
+        }
+        Ok(())
+    }
+}
+
+/// the heap-object constructors as the literal arms see them (ASSUMED here). PROVED-BY: O15.7 c15_float_roundtrip
+/// (Kani, real Object::float / as_f64); strings: NOT DECIDED (see DESIGN.md, str reasoning is out of reach)
+pub uninterp spec fn spec_is_float_of(o: Object, v: f64) -> bool;
+pub uninterp spec fn spec_is_string_of(o: Object, v: Seq<char>) -> bool;
+impl Object {
+    #[verifier::external_body]
+    pub fn float(value: f64, gc: &mut GC) -> (o: Object) ensures spec_tag(o) == Type::Float, spec_is_float_of(o, value) { unimplemented!() }
+    #[verifier::external_body]
+    pub fn string(value: &str, gc: &mut GC) -> (o: Object) ensures spec_tag(o) == Type::String, spec_is_string_of(o, value@) { unimplemented!() }
 }
 
 } // verus!
